@@ -324,9 +324,13 @@ def gen_decisive_case(rng):
         # 1 - eps along the old route; the policy plays b with an ordinary probability
         old_row = [x for x in gen_mdp_row(rng, m, s0, exclude=(cls if undisc else []))]
         tgt = cls[0] if undisc else old_row[0][0]
+        # the 1 - eps branch must LEAVE s0: 1 - 2^-60 is 1.0 in doubles, so a self-loop there would, under a policy
+        # that always plays b (e.g. the second policy of a multi-step case), be a state left only after ~2^60 steps --
+        # an absorption time no double-precision solve can follow (I - P is exactly singular in floating point)
         alt = old_row[-1][0]
-        if alt == tgt:
-            alt = rng.choice([x for x in range(m["n"]) if x != tgt and (not undisc or x not in cls)] or [x for x in range(m["n"]) if x != tgt])
+        if alt in (tgt, s0):
+            alt = rng.choice([x for x in range(m["n"]) if x not in (tgt, s0) and (not undisc or x not in cls)]
+                             or [x for x in range(m["n"]) if x != tgt])
         for k in [k for k in m["reward"] if k.startswith("%d,%d," % (s0, b))]:
             del m["reward"][k]
         m["trans"]["%d,%d" % (s0, b)] = [[tgt, str(eps)], [alt, str(1 - eps)]]
